@@ -9,9 +9,9 @@ REVIEWED = {
         "the bit vector has 8*ceil(bits/4) >= 2*bits bits (built from vec![0; bits.div_ceil(4)] two lines above)",
     '<idpf::IdpfPublicShare<VI, VL> as codec::ParameterizedDecode<usize>>::decode_with_param|call:index|BitVec::<T, O>::from_vec(φ)|RangeFrom{(2 Mul $1)}':
         "same relation: 2*bits <= 8*ceil(bits/4)",
-    "<idpf::IdpfPublicShare<VI, VL> as codec::ParameterizedDecode<usize>>::decode_with_param|index-call|(<Chunks<'a, T, O> as Iterator>::next(φ) as Some).0|0":
+    "<idpf::IdpfPublicShare<VI, VL> as codec::ParameterizedDecode<usize>>::decode_with_param|index-call|(Iterator::next(φ) as Some).0|0":
         "chunks(2) of a slice of even length 2*bits yields chunks of exactly 2 bits",
-    "<idpf::IdpfPublicShare<VI, VL> as codec::ParameterizedDecode<usize>>::decode_with_param|index-call|(<Chunks<'a, T, O> as Iterator>::next(φ) as Some).0|1":
+    "<idpf::IdpfPublicShare<VI, VL> as codec::ParameterizedDecode<usize>>::decode_with_param|index-call|(Iterator::next(φ) as Some).0|1":
         "chunks(2) of a slice of even length 2*bits yields chunks of exactly 2 bits",
     # --- Cursor invariant
     "codec::ParameterizedDecode::get_decoded_with_param|overflow:Sub|len($2)|(Cursor::<T>::position(φ) as usize)":
@@ -62,7 +62,7 @@ REVIEWED = {
         'length-prefix back-patching over a growing Vec: len_offset was recorded before a placeholder of the prefix width was pushed, so bytes.len() >= len_offset + width at the later reads (the reconstructed terms cannot distinguish the two len() reads)',
     'flp::Flp::query::{closure#0}|call:index|^^1|Range{^^1, ((Gadget::arity($2.0.pointer) Add gadget_poly_len(Gadget::degree($2.0.pointer), wire_poly_len(Gadget::calls($2.0.pointer)))) Add ^^1)}':
         'len(proof) was pinned to proof_len() = sum(arity + gadget_poly_len) by the guard at the top of query; the closure walks exactly that layout',
-    'flp::Flp::query|call:unwrap|TryFrom::try_from(wire_poly_len(Gadget::calls((<Zip<A, B> as Iterator>::next(φ) as Some).0.0.0.pointer)))':
+    'flp::Flp::query|call:unwrap|TryFrom::try_from(wire_poly_len(Gadget::calls((Iterator::next(φ) as Some).0.0.0.pointer)))':
         "wire_poly_len(calls) <= proof_len, and a circuit whose wire polynomial length does not fit the field's integer type cannot be instantiated (NTT size limit 2^20)",
     'flp::ProveShimGadget::<F>::new|call:index|$2|RangeTo{len(φ)}':
         'the only caller passes prove_rand[i..i + inner.arity()], and wire_values has inner.arity() rows',
@@ -86,11 +86,11 @@ REVIEWED = {
         "generate_verification_message(..)? succeeded, so unpack_proof's guard pinned len(data) to proof_length(input_len) = input_len + 3 + n >= input_len",
     'vdaf::prio3::Prio3::<T, P, SEED_SIZE>::shard_with_random|call:index|Option::<T>::unwrap_or_default(Option::<T>::map(Prio3PublicShare{Option::<Result<T, E>>::transpose(Option::<T>::map(φ, closure Prio3::<T, P, SEED_SIZE>::{closur|Range{(Flp::joint_rand_len($1.typ) Mul (<impl Iterator for Range<A>>::next(φ) as Some).0), ((1 Add (<impl Iterator for Range<A>>::next(φ) as Some).0) Mul Flp::j':
         'joint_rands has joint_rand_len() * num_proofs() elements (empty when joint_rand_len() == 0) and p ranges over 0..num_proofs()',
-    "vdaf::prio3::Prio3::<T, P, SEED_SIZE>::shard_with_random|call:index|Prio3::<T, P, SEED_SIZE>::derive_prove_rands($1, $2, Seed::<SEED_SIZE>::from_bytes(Option::<T>::unwrap(<Iter<'a, T> as Iterator>::next(φ))))|Range{(Flp::prove_rand_len($1.typ) Mul (<impl Iterator for Range<A>>::next(φ) as Some).0), ((1 Add (<impl Iterator for Range<A>>::next(φ) as Some).0) Mul Flp::p":
+    "vdaf::prio3::Prio3::<T, P, SEED_SIZE>::shard_with_random|call:index|Prio3::<T, P, SEED_SIZE>::derive_prove_rands($1, $2, Seed::<SEED_SIZE>::from_bytes(Option::<T>::unwrap(Iterator::next(φ))))|Range{(Flp::prove_rand_len($1.typ) Mul (<impl Iterator for Range<A>>::next(φ) as Some).0), ((1 Add (<impl Iterator for Range<A>>::next(φ) as Some).0) Mul Flp::p":
         'prove_rands has prove_rand_len() * num_proofs() elements and p ranges over 0..num_proofs()',
-    'vdaf::prio3::Prio3::<T, P, SEED_SIZE>::shard_with_random|call:unwrap|<impl TryFrom<usize> for u8>::try_from((<Enumerate<I> as Iterator>::next(φ) as Some).0.0)':
+    'vdaf::prio3::Prio3::<T, P, SEED_SIZE>::shard_with_random|call:unwrap|<impl TryFrom<usize> for u8>::try_from((Iterator::next(φ) as Some).0.0)':
         'j enumerates the helper shares: j < num_aggregators - 1 <= 253, so j fits u8 and j + 1 <= 254',
-    'vdaf::prio3::Prio3::<T, P, SEED_SIZE>::shard_with_random|overflow:Add|1|Result::<T, E>::unwrap(<impl TryFrom<usize> for u8>::try_from((<Enumerate<I> as Iterator>::next(φ) as Some).0.0))':
+    'vdaf::prio3::Prio3::<T, P, SEED_SIZE>::shard_with_random|overflow:Add|1|Result::<T, E>::unwrap(<impl TryFrom<usize> for u8>::try_from((Iterator::next(φ) as Some).0.0))':
         'j enumerates the helper shares: j < num_aggregators - 1 <= 253, so j fits u8 and j + 1 <= 254',
     "flp::types::dp::<impl flp::types::l1boundsum::L1BoundSum<F, S>>::add_noise|call:unwrap|<impl TryFrom<BigInt> for BigUint>::try_from((conv($1.max_value) Mul 2))":
         "BigInt::from(an unsigned integer) * 2 is non-negative, so the conversion to BigUint cannot fail",
